@@ -119,6 +119,89 @@ def inverse_env(a):
     return bool(msgs), '; '.join(msgs[:3]) if msgs else 'inverse solutions close on the exact geodesic, symmetric and shift invariant'
 
 
+def _seq_ells(env):
+    """(first, second) ellipsoid of a two-ellipsoid call sequence; defaults differ by much more than any tolerance"""
+    import geodepy.constants as gc
+    p1 = (_f(env.get('a'), 6378137.0), _f(env.get('invf'), 281.0))
+    p2 = (_f(env.get('a2'), 6378388.0), _f(env.get('invf2'), 298.257222101))
+    return _EllSpec(p1), _EllSpec(p2)
+
+
+class _EllSpec:
+    """an ellipsoid of a call sequence: `.get()` is one long-lived object, or a new short-lived object per call (TEMPORARIES)"""
+    temporaries = False
+
+    def __init__(self, p):
+        import geodepy.constants as gc
+        self.p = p
+        self.obj = gc.Ellipsoid(*p)
+        self.semimaj, self.inversef = self.obj.semimaj, self.obj.inversef
+        if _EllSpec.temporaries:
+            self.obj = None
+
+    def get(self):
+        import geodepy.constants as gc
+        return self.obj if self.obj is not None else gc.Ellipsoid(*self.p)
+
+
+def inverse_sequence(a):
+    """the same point pairs solved first on one ellipsoid and then on another one in the same process: the second answers must close on
+    the exact geodesic of the SECOND ellipsoid (and then the other way round with other pairs)"""
+    from geodepy.geodesy import vincinv
+    env = a.get('env', {})
+    _EllSpec.temporaries = bool(a.get('temporaries'))
+    e1, e2 = _seq_ells(env)
+    pairs = list(PAIRS)
+    if 'lat1' in env:
+        pairs.insert(0, (_f(env.get('lat1')), _f(env.get('lon1')), _f(env.get('lat2')), _f(env.get('lon2'))))
+    msgs = []
+    half = max(1, len(pairs) // 2)
+    for first, second, pp in ((e1, e2, pairs[:half]), (e2, e1, pairs[half:])):
+        for (la1, lo1, la2, lo2) in pp:
+            try:
+                vincinv(la1, lo1, la2, lo2, first.get())
+            except Exception:  # noqa
+                pass
+        for (la1, lo1, la2, lo2) in pp:
+            _inverse_checks((la1, lo1), (la2, lo2), second.get(), msgs)
+    msgs = ['after the same points were solved on 1/f=%r: %s' % (float(e1.inversef), m) for m in msgs]
+    return bool(msgs), '; '.join(msgs[:3]) if msgs else 'second ellipsoid of a call sequence gets its own solution'
+
+
+def direct_sequence(a):
+    """the same lines run first on one ellipsoid and then on another one in the same process"""
+    from geodepy.geodesy import vincdir
+    env = a.get('env', {})
+    _EllSpec.temporaries = bool(a.get('temporaries'))
+    e1, e2 = _seq_ells(env)
+    cases = list(CASES)
+    if 'lat1' in env:
+        cases.insert(0, (_f(env.get('lat1')), _f(env.get('lon1')), _f(env.get('az')), _f(env.get('s'))))
+    msgs = []
+    half = max(1, len(cases) // 2)
+    for first, second, cc in ((e1, e2, cases[:half]), (e2, e1, cases[half:])):
+        for lat1, lon1, az, s in cc:
+            try:
+                vincdir(lat1, lon1, az, s, first.get())
+            except Exception:  # noqa
+                pass
+        for lat1, lon1, az, s in cc:
+            try:
+                la, lo, az2 = vincdir(lat1, lon1, az, s, second.get())
+            except Exception as ex:  # noqa
+                msgs.append('vincdir(%r, %r, %r, %r) raised %s: %s' % (lat1, lon1, az, s, type(ex).__name__, ex))
+                continue
+            xa, xo, xz = G.direct(lat1, lon1, az, s, second.semimaj, second.inversef)
+            d = G.surface_sep(la, lo, xa, xo, second.semimaj, second.inversef)
+            if d > 1e-3:
+                msgs.append('vincdir on 1/f=%r after the same line on 1/f=%r ends %.3e m from the exact geodesic at %r'
+                            % (float(second.inversef), float(first.inversef), float(d), (lat1, lon1, az, s)))
+            elif abs(xa) < 89 and G.angdiff(az2, xz + 180) > 1.5e-8:
+                msgs.append('vincdir on 1/f=%r after the same line on 1/f=%r: reverse azimuth off by %.3e deg at %r'
+                            % (float(second.inversef), float(first.inversef), float(G.angdiff(az2, xz + 180)), (lat1, lon1, az, s)))
+    return bool(msgs), '; '.join(msgs[:3]) if msgs else 'second ellipsoid of a call sequence gets its own solution'
+
+
 def argforms(a):
     """vincdir with some arguments as angle objects of one class and the others plain numbers = vincdir on the decimal values"""
     import itertools
